@@ -413,3 +413,23 @@ func (it *Iter) Next() bool {
 }
 func (it *Iter) Key() reflect.Value   { return it.keys[it.i] }
 func (it *Iter) Value() reflect.Value { return it.m.MapIndex(it.keys[it.i]) }
+
+// ---------------------------------------------------------------------------
+// simulated process restart
+
+var resetFns []func()
+
+// RegisterReset is called from init functions the instrumenter adds to the packages under
+// test: f re-runs the initialisers of that file's package-level variables.
+func RegisterReset(f func()) { resetFns = append(resetFns, f) }
+
+// ResetGlobals re-initialises every package-level variable of the instrumented runtime
+// packages, in registration order: the in-memory state a fresh process would start with
+// (ygot keeps nothing durable, so this is all a restart amounts to). It must only be called
+// while no task is running.
+func ResetGlobals() int {
+	for _, f := range resetFns {
+		f()
+	}
+	return len(resetFns)
+}
